@@ -50,6 +50,15 @@ Definition apply_pending (cur : list bool) (p : option (list bool)) : list bool 
 Definition set_pending (cur : list bool) (p : option (list bool)) (f : list bool) : option (list bool) * bool :=
   if (List.length f =? List.length cur)%nat then (Some f, true) else (p, false).
 
+(* colvarparse::to_lower_cppstr *)
+Definition lower_ascii (c : ascii) : ascii :=
+  let n := nat_of_ascii c in if (65 <=? n)%nat && (n <=? 90)%nat then ascii_of_nat (n + 32) else c.
+Fixpoint lower (s : string) : string :=
+  match s with EmptyString => EmptyString | String c r => String (lower_ascii c) (lower r) end.
+
+(* the dependency state of one object as the script sees it: feature description -> (available, enabled) *)
+Definition featmap : Type := list (string * (bool * bool)).
+
 Section Sem.
   Context {T : Type}.
   Definition vec : Type := (T * T * T)%type.
@@ -70,7 +79,8 @@ Section Sem.
   Record moddata := mk_moddata {
     md_step : Z; md_energy : T;
     md_ids : list Z; md_masses : list T; md_charges : list T;
-    md_pos : list vec; md_af : list vec; md_tf : list vec }.
+    md_pos : list vec; md_af : list vec; md_tf : list vec;
+    md_feat : list (string * featmap) }.   (* features of every object ("c:<variable>" / "b:<bias>"); [] = not known any more *)
   Record sem := mk_sem {
     sm_objs : mstate;
     sm_cv : list (string * cvsem);
@@ -152,6 +162,31 @@ Section Sem.
   Definition with_mod (st : sem) (f : moddata -> qresult) : qresult :=
     match sm_mod st with Some m => f m | None => QOk end.
 
+  (* a feature was switched by the call (set, getgradients enabling collect_gradient on demand): enabling or disabling one
+     feature changes others through the dependency engine (C13), so the feature states are unknown until the next step *)
+  Definition drop_feat (st : sem) : sem :=
+    match sm_mod st with
+    | Some m => mk_sem (sm_objs st) (sm_cv st) (sm_bias st)
+                  (Some (mk_moddata (md_step m) (md_energy m) (md_ids m) (md_masses m) (md_charges m) (md_pos m) (md_af m) (md_tf m) []))
+    | None => st
+    end.
+
+  (* colvarscript::proc_features, sub-command `get`: the feature whose description is the lower-cased argument; unknown or
+     unavailable: error; otherwise 1/0.  collect_gradient is known from the flags; collect_atom_ids is switched on by getatomids
+     behind the model's back: no claim *)
+  Definition feature_query (st : sem) (key f : string) (collect : option bool) : qresult :=
+    let lf := lower f in
+    if String.eqb lf "collect_atom_ids" then QOk
+    else if String.eqb lf "collect_gradient" then match collect with Some b => QInt (if b then 1 else 0)%Z | None => QOk end
+    else with_mod st (fun m =>
+           match alookup key (md_feat m) with
+           | None => QOk
+           | Some fm => match alookup lf fm with
+                        | None => QErr
+                        | Some (av, en) => if av then QInt (if en then 1 else 0)%Z else QErr
+                        end
+           end).
+
   (* commands that read: name of the function -> what they return.  obj = the object name, arg = first argument if any *)
   Definition pure_query (st : sem) (fn obj : string) (arg : option string) : option qresult :=
     if String.eqb fn "colvar_value" then Some (with_cv st obj (fun d => QReal (cd_value d)))
@@ -185,9 +220,12 @@ Section Sem.
        "cv_getsteprelative"; "cv_getnumactiveatoms"; "cv_getnumactiveatomgroups"; "cv_getatomappliedforcesmax";
        "cv_getatomappliedforcesrms"; "cv_getatomappliedforcesmaxid"; "cv_molid"; "cv_frame"; "cv_delete";
        "colvar_type"; "colvar_width"; "colvar_help"; "colvar_getconfig"; "colvar_getatomgroups"; "colvar_getvolmapids";
-       "colvar_state"; "colvar_run_ave"; "colvar_get";
-       "bias_type"; "bias_getconfig"; "bias_help"; "bias_state"; "bias_savetostring"; "bias_get"; "bias_bin"; "bias_bincount";
-       "bias_binnum"; "bias_local_sample_count"; "bias_share"; "bias_save"].
+       "colvar_state"; "colvar_run_ave";
+       "bias_type"; "bias_getconfig"; "bias_help"; "bias_state"; "bias_savetostring";
+       "bias_save"].
+  (* the biases of this model are harmonic restraints: no grid, no replicas - these bodies can only report that *)
+  Definition grid_only (fn : string) : bool :=
+    existsb (String.eqb fn) ["bias_bin"; "bias_bincount"; "bias_binnum"; "bias_local_sample_count"; "bias_share"].
 
   Definition set_flags (st : sem) (n : string) (c : bool) (v : option bool) : sem :=
     match alookup n (sm_cv st) with
@@ -213,11 +251,16 @@ Section Sem.
     | Some r => (st, r)
     | None =>
       if inert fn then (st, QOk)
+      else if grid_only fn then (st, QErr)
+      else if String.eqb fn "colvar_get" then
+        (st, feature_query st ("c:" ++ obj) (nth 4 words "")
+               (match alookup obj (sm_cv st) with Some cs => Some (cs_collect cs) | None => None end))
+      else if String.eqb fn "bias_get" then (st, feature_query st ("b:" ++ obj) (nth 4 words "") None)
       else if String.eqb fn "colvar_getgradients" then
         match alookup obj (sm_cv st) with
         | None => (st, QOk)
         | Some cs =>
-          if negb (cs_collect cs) then (set_flags st obj true (Some false), QErr)      (* enabled on demand; nothing collected yet *)
+          if negb (cs_collect cs) then (drop_feat (set_flags st obj true (Some false)), QErr)      (* enabled on demand; nothing collected yet *)
           else match cs_valid cs with
                | Some false => (st, QErr)
                | Some true => (st, match cs_data cs with Some d => QVecs (cd_grads d) | None => QOk end)
@@ -226,8 +269,8 @@ Section Sem.
         end
       else if String.eqb fn "colvar_set" && String.eqb (nth 4 words "") "collect_gradient" then
         match alookup obj (sm_cv st), truthy (nth 5 words "") with
-        | Some cs, Some true => (if cs_collect cs then st else set_flags st obj true (Some false), QOk)
-        | Some cs, Some false => (set_flags st obj false (Some false), QOk)
+        | Some cs, Some true => (if cs_collect cs then st else drop_feat (set_flags st obj true (Some false)), QOk)
+        | Some cs, Some false => (drop_feat (set_flags st obj false (Some false)), QOk)
         | _, _ => (st, QErr)
         end
       else if String.eqb fn "colvar_cvcflags" then
